@@ -75,7 +75,23 @@ static void attribute(const Desc& d, const Facts& f, const Plan& plan, const Wor
     auto& P = o.props;
     const Op* op = (opi >= 0 && opi < (int)plan.ops.size()) ? &plan.ops[opi] : nullptr;
     bool stored_api = op && (op->kind == OP_ENQUEUE || op->kind == OP_DRAIN || op->kind == OP_DRAIN1);
+    // the diverging record is the entry of a sub-state during the entry cascade of its sub-machine: which sub-state gets
+    // active on (re-)entry is C08's subject under every history policy, "none" included
+    auto entry_cascade = [&]() {
+        for (const Rec* r : {O, E}) {
+            if (!r || r->kind != K_N || r->site < 0 || r->site >= (int)d.states.size()) continue;
+            int own = d.machines[d.states[r->site].machine].parent_state;
+            if (own < 0) continue;
+            for (size_t k = i; k-- > 0 && k < X.size(); ) {
+                if (X[k].kind == K_POST || X[k].kind == K_THROW) continue;
+                if (X[k].kind != K_N) break;
+                if (X[k].site == own) return true;
+            }
+        }
+        return false;
+    };
     auto add_context = [&]() {
+        if (entry_cascade()) add(P, "C08");
         if (after_throw) add(P, "C12");
         if (after_copy) add(P, "C15");
         if (after_load) add(P, "C16");
